@@ -70,6 +70,35 @@ def _eval_queries(m, assertions_ctx, queries):
     return {}
 
 
+_BV2INT_NAMES = ('bv2int', 'ubv_to_int', 'sbv_to_int', 'bv2nat')
+
+
+def abstract_bv2int(fs):
+    """sound generalisation: every bit-vector -> integer conversion becomes a fresh integer constant (one per distinct
+    term).  unsat of the abstraction implies unsat of the original; sat means nothing."""
+    cache = {}
+    memo = {}
+
+    def walk(t):
+        i = t.get_id()
+        if i in memo:
+            return memo[i]
+        if z3.is_app(t) and t.num_args() > 0:
+            if t.decl().name() in _BV2INT_NAMES:
+                r = cache.setdefault(i, z3.Int('bvint!%d' % len(cache)))
+            else:
+                ch = [walk(c) for c in t.children()]
+                if any(not a.eq(b) for a, b in zip(ch, t.children())):
+                    r = t.decl()(*ch)
+                else:
+                    r = t
+        else:
+            r = t
+        memo[i] = r
+        return r
+    return [walk(f) for f in fs], len(cache)
+
+
 def solve_one(task):
     """task = dict(name, smt2, timeout_ms, seed, queries) -> dict(status, backend, time, model)"""
     t0 = time.time()
@@ -84,7 +113,7 @@ def solve_one(task):
     # (i) quantifier-free slice
     if len(qf) < len(fs):
         s = z3.Solver()
-        s.set('timeout', min(timeout, 10000))
+        s.set('timeout', min(timeout, 3000))
         s.set('random_seed', seed)
         s.add(*qf)
         r = s.check()
@@ -92,6 +121,17 @@ def solve_one(task):
             return dict(name=name, status='unsat', backend='z3-qfslice', time=time.time() - t0)
         if r == z3.sat:
             cand = _model_dict(s.model())
+    # (i') quantifier-free slice with bit-vector -> int conversions abstracted (pure real/int reasoning)
+    try:
+        afs, nabs = abstract_bv2int(qf)
+    except Exception:
+        afs, nabs = None, 0
+    if nabs:
+        s = z3.Solver()
+        s.set('timeout', min(timeout, 5000))
+        s.add(*afs)
+        if s.check() == z3.unsat:
+            return dict(name=name, status='unsat', backend='z3-qfslice-abs', time=time.time() - t0)
     # (ii) full query
     for tactic_seed in (seed, seed + 17):
         s = z3.Solver()
@@ -107,6 +147,17 @@ def solve_one(task):
             return dict(name=name, status='sat', backend='z3', time=time.time() - t0, model=model)
         if time.time() - t0 > timeout / 1000.0:
             break
+    # (ii') a longer try on the quantifier-free slice
+    if len(qf) < len(fs) and cand is None:
+        s2 = z3.Solver()
+        s2.set('timeout', timeout)
+        s2.set('random_seed', seed + 5)
+        s2.add(*qf)
+        r = s2.check()
+        if r == z3.unsat:
+            return dict(name=name, status='unsat', backend='z3-qfslice', time=time.time() - t0)
+        if r == z3.sat:
+            cand = _model_dict(s2.model())
     # (iii) cvc5
     if task.get('use_cvc5', True):
         r = run_cvc5(smt2, timeout)
